@@ -83,6 +83,19 @@ PROPERTIES = {
                     'meaning of str::parse::<u64> and u64::to_string (std; uninterpreted, assumed inverse)'],
         assumptions=['tokio::time::sleep(d) arms a timer of duration d (millisecond granularity)'],
     ),
+    'C20': dict(
+        units=['auth'],
+        canaries=['auth'],
+        counterexample=cex.cex_c20,
+        scope='the wrapped service is invoked (exactly once, with the unchanged request) iff the authorizer accepted; a refused request gets exactly the '
+              'authorizer\'s response and causes no invocation (ghost call log on the generic Service); the allow-list authorizer implements the '
+              'decision of the statement verbatim (listed -> accept, unlisted -> NotFound, no sender -> InternalServerError) and leaves the request untouched; '
+              'the service holds no shared mutable state (the authorizer is unchanged by call), so concurrent use through clones is a set of independent sequential calls.',
+        unverified=['ResponseFuture::poll (pin_project): that the stored refusal response is what the future yields and that the accepted future is polled through',
+                    'AllowedPeers::new (into_iter().collect()): the set holds exactly the given peers (std)',
+                    'that the network attaches the authenticated PeerId as the request extension read by peer_id() (C01)'],
+        assumptions=['derived Hash/Eq of PeerId obey the hash-set key model'],
+    ),
 }
 
 HOOK_COMMITS = ['5546537']
